@@ -178,7 +178,7 @@ def t_cleanup_skip_errorf():
 
 def t_regexp_retry():
     # regexps whose expansion can fail the final match, so that whole attempts are rejected and retried
-    return [draw(g("StringMatching", expr="[a-c]\\b."), "r", "r"), draw(g("SliceOfBytesMatching", expr="^x?\\bfoo\\b|[a-z]$"), "rb"), draw(g("Int8"), "t", "t"),
+    return [draw(g("StringMatching", expr="[a-c]\\b[ab -]"), "r", "r"), draw(g("SliceOfBytesMatching", expr="^x?\\bfo[o ]\\b|[a-z]$"), "rb"), draw(g("Int8"), "t", "t"),
             iff("t", "ge", 50, [op("fatalf", site=1)])]
 
 
@@ -995,7 +995,7 @@ def c04_bodies():
         "makemap": [draw(g("Make", type="map"), "mm"), draw(g("Int8"), "t")],
         "makestruct": [draw(g("Make", type="struct"), "ms"), draw(g("Make", type="ptr"), "mp")],
         "regexp": [draw(g("StringMatching", expr="[a-c]{2,4}x?|\\d+"), "r"), draw(g("SliceOfBytesMatching", expr="(?i)ab*c"), "rb")],
-        "regexp_retry": [draw(g("StringMatching", expr="[a-c]\\b."), "r"), draw(g("SliceOfBytesMatching", expr="^x?\\bfoo\\b|[a-z]$"), "rb"), draw(g("Int8"), "t")],
+        "regexp_retry": [draw(g("StringMatching", expr="[a-c]\\b[ab -]"), "r"), draw(g("SliceOfBytesMatching", expr="^x?\\bfo[o ]\\b|[a-z]$"), "rb"), draw(g("Int8"), "t")],
         "sm2": [op("repeat", actions={"left": [draw(g("Bool"), "b")], "right": [draw(g("Byte"), "c")]}), draw(g("Int8"), "after")],
         "custom_hard": t_custom_hard()[:-1],
         "custom_fatal": [draw(g("Int8"), "p"), draw(g("Custom", elem=g("Int16"), body=[draw(IntRange(0, 9), "a", "a"), iff("a", "le", 1, [op("skip")]),
